@@ -32,6 +32,8 @@ struct EvalCase {
     sm: Vec<Vec<Loc>>,
     #[serde(default)]
     paths: Vec<PathEntry>,
+    #[serde(default)]
+    ast: Option<Vec<verif_harness::ast::ASeg>>,
 }
 
 #[derive(Deserialize)]
@@ -482,6 +484,28 @@ fn check_eval<T: Queryable + JsonPath>(
             }
         }
     }
+    if has("prog") {
+        // the same abstract query BUILT PROGRAMMATICALLY (no parser) and evaluated with js_path_process
+        if let Some(jq) = case.ast.as_ref().and_then(|a| verif_harness::ast::jpquery(a)) {
+            *stats.entry("prog".into()).or_default() += 1;
+            let r = guarded(|| js_path_process(&jq, doc).map(|rs| rs.into_iter().map(|r| am.loc_of(r.clone().val()).cloned()).collect::<Vec<_>>()).map_err(|e| e.to_string()));
+            let ok = match &r {
+                Ok(Ok(ls)) => {
+                    let mut got: Vec<Loc> = ls.iter().flatten().cloned().collect();
+                    let inside = got.len() == ls.len();
+                    got.sort();
+                    inside && got == se
+                }
+                _ => false,
+            };
+            if !ok {
+                let mut m = base(case, &q, docj, "prog", repr);
+                m["what"] = json!("js_path_process on the programmatically built query does not return the specification's nodes");
+                m["actual"] = json!(format!("{:?}", r.map(|x| x.map(|ls| ls.iter().map(|l| l.as_ref().map(loc_display)).collect::<Vec<_>>()))));
+                out.mismatch(m);
+            }
+        }
+    }
     if has("entry") {
         *stats.entry("entry".into()).or_default() += 1;
         // the three entry points and the prepared query agree position by position; repetition is stable
@@ -571,7 +595,7 @@ fn check_grammar(g: &GrammarCase, checks: &[String], out: &mut Out, stats: &mut 
     }
     if g.verdict == "valid" && has("order") {
         for (n, d) in g.docs.iter().enumerate() {
-            let case = EvalCase { id: json!([g.id, n]), q: g.q.clone(), doc: d.doc.clone(), expect: d.expect.clone(), sm: d.sm.clone(), paths: vec![] };
+            let case = EvalCase { id: json!([g.id, n]), q: g.q.clone(), doc: d.doc.clone(), expect: d.expect.clone(), sm: d.sm.clone(), paths: vec![], ast: None };
             let doc = case.doc.to_value();
             let docj = case.doc.to_j().to_value();
             check_eval(&case, &doc, &docj, "Value", &["order".to_string()], out, stats);
